@@ -905,6 +905,9 @@ func (s *QueueStats) UnmarshalBinary(data []byte) error {
 	n := 0
 	s.PortNo = binary.BigEndian.Uint16(data[n:])
 	n += 2
+	if len(s.pad) != 2 {
+		s.pad = make([]byte, 2)
+	}
 	copy(s.pad, data[n:])
 	n += len(s.pad)
 	s.QueueId = binary.BigEndian.Uint32(data[n:])
